@@ -7,6 +7,10 @@ Applies each mutation to /repo's working tree (string replacement), runs the tag
 """
 import os, subprocess, sys, time, json
 
+# evidence and replays of runs against modified trees never go to /verif/evidence
+os.environ["VERIF_OUT"] = "/tmp/verif_modified_tree_out"
+os.makedirs(os.environ["VERIF_OUT"], exist_ok=True)
+
 REPO = "/repo"
 ROOT = os.path.dirname(os.path.dirname(os.path.abspath(__file__)))
 
@@ -143,7 +147,7 @@ def main():
                 rows.append((name, path, p, verdict, time.time() - t0)); print(rows[-1], flush=True)
         finally:
             sh(f"git -C {REPO} checkout -- .")
-            sh(f"rm -f {ROOT}/replays/*.json")
+            sh(f"rm -f {os.environ['VERIF_OUT']}/replays/*.json")
     os.makedirs(os.path.join(ROOT, "mutants"), exist_ok=True)
     with open(os.path.join(ROOT, "mutants", "RESULTS.md"), "a" if want else "w") as f:
         if not want:
